@@ -72,6 +72,25 @@ pub fn exec(line: &str) -> String {
                 }
             }
         }
+        // boundary operations (indices close to usize::MAX): a panic is a legitimate outcome here — the crate refuses to
+        // create an index above usize::MAX — and is reported as the line PANIC by the caller's catch_unwind
+        "applyb" => {
+            let mut t = term!();
+            let a = term!();
+            match t.apply(&a) {
+                Ok(()) => format!("ok {}", s(&t)),
+                Err(e) => format!("err {}", err_name(&e)),
+            }
+        }
+        "reduceb" => {
+            let o = match it.next().and_then(order_of) {
+                Some(o) => o,
+                None => return "bad-op".into(),
+            };
+            let mut t = term!();
+            let c = t.reduce(o, 1);
+            format!("{} {}", c, s(&t))
+        }
         "reduce" => {
             let o = match it.next().and_then(order_of) {
                 Some(o) => o,
